@@ -228,7 +228,7 @@ theorem step_ok (st : Sub.State) (op : Op) (h : AllOK st) : AllOK (step st op) :
     apply updateSub_ok st id _ h
     intro s hs
     split
-    · exact ⟨hs.1, hs.2⟩
+    · exact ⟨hs.1, by simp⟩
     · exact hs
   | gate id shut =>
     apply updateSub_ok st id _ h
